@@ -15,6 +15,35 @@ pub mod supervise;
 
 use std::time::Instant;
 
+/// Counting allocator: live bytes per thread (a const-initialised thread-local Cell without
+/// destructor, so it is usable inside the allocator). Read by C02's `probe`.
+pub struct CountingAlloc;
+thread_local! {
+    pub static LIVE_BYTES: std::cell::Cell<isize> = const { std::cell::Cell::new(0) };
+}
+unsafe impl std::alloc::GlobalAlloc for CountingAlloc {
+    unsafe fn alloc(&self, l: std::alloc::Layout) -> *mut u8 {
+        let p = std::alloc::System.alloc(l);
+        if !p.is_null() {
+            let _ = LIVE_BYTES.try_with(|c| c.set(c.get() + l.size() as isize));
+        }
+        p
+    }
+    unsafe fn dealloc(&self, p: *mut u8, l: std::alloc::Layout) {
+        std::alloc::System.dealloc(p, l);
+        let _ = LIVE_BYTES.try_with(|c| c.set(c.get() - l.size() as isize));
+    }
+    unsafe fn realloc(&self, p: *mut u8, l: std::alloc::Layout, new_size: usize) -> *mut u8 {
+        let q = std::alloc::System.realloc(p, l, new_size);
+        if !q.is_null() {
+            let _ = LIVE_BYTES.try_with(|c| c.set(c.get() + new_size as isize - l.size() as isize));
+        }
+        q
+    }
+}
+#[global_allocator]
+static GLOBAL: CountingAlloc = CountingAlloc;
+
 #[derive(Clone, Copy, PartialEq, Eq, Debug)]
 pub enum Tier {
     Quick,
